@@ -6,7 +6,7 @@ from oracle_util import *
 ALPHABET = ["N2.5", "N0", "N1", "Vx", "Vy", "Cpi", "Fsin", "OAdd", "OSub", "OMul", "ODiv", "OCaret", "OFac", "LP", "RP"]
 CHUNK_MIN = 64
 
-RULE = ("exhaustive: every token sequence of length <= 5 (quick) / 6 (thorough) over {2.5, 0, 1, x, y, pi, sin, +, -, *, /, ^, !, (, )} "
+RULE = ("(hardening: 24 000 / 300 000 biased sequences of 4..16 tokens over the whole vocabulary [cos tan cot log ln, e tau phi, % and the dot operator], every function / constant name in lower, upper and mixed case and as symbol, nesting 200 / 500 / 2000 deep, literals of 16..57 significant digits and at the ends of the binary64 range through the lexer, literals next to 0 and 1 at every distance in every folding position; numeric comparisons also accept a difference explained by first-order rounding-error propagation) exhaustive: every token sequence of length <= 5 (quick) / 6 (thorough) over {2.5, 0, 1, x, y, pi, sin, +, -, *, /, ^, !, (, )} "
         "through implied multiplication, parser, folding, Display and re-parsing (digest per 2-token prefix class, refined to a single "
         "sequence on any difference); random conventional expression trees of depth <= 6 rendered with minimal and with redundant "
         "parentheses; arbitrary character strings up to 200 characters through lexer and parser. Non-trivial = a prefix class with at "
